@@ -1,10 +1,154 @@
-use crate::State;
+// C06 / C07: model parsing, editing and writing.
 use crate::util::*;
-use serde_json::Value;
+use crate::{State, guarded};
+use physis::model::{MDL, NewShapeValue, Vertex};
+use serde_json::{Value, json};
+use std::collections::HashMap;
 
 #[derive(Default)]
-pub struct MdlState {}
+pub struct MdlState {
+    pub models: HashMap<i64, MDL>,
+}
 
-pub fn run(_st: &mut State, op: &str, _cmd: &Value) -> Value {
-    toolerror(&format!("unknown op {op}"))
+fn fw(x: f32) -> Value {
+    w32(x.to_bits())
+}
+
+fn vertex(v: &Vertex) -> Value {
+    let mut f = vec![];
+    for x in v.position.iter().chain(v.uv0.iter()).chain(v.uv1.iter()).chain(v.normal.iter())
+        .chain(v.bitangent.iter()).chain(v.color.iter()).chain(v.bone_weight.iter()) {
+        f.push(fw(*x));
+    }
+    json!({"f": f, "bi": v.bone_id.to_vec()})
+}
+
+fn get_vertex(v: &Value) -> Vertex {
+    let f: Vec<f32> = v["f"].as_array().unwrap().iter().map(|w| f32::from_bits(get_w32(w))).collect();
+    let bi = get_bytes(&v["bi"]);
+    Vertex {
+        position: [f[0], f[1], f[2]],
+        uv0: [f[3], f[4]],
+        uv1: [f[5], f[6]],
+        normal: [f[7], f[8], f[9]],
+        bitangent: [f[10], f[11], f[12], f[13]],
+        color: [f[14], f[15], f[16], f[17]],
+        bone_weight: [f[18], f[19], f[20], f[21]],
+        bone_id: [bi[0], bi[1], bi[2], bi[3]],
+    }
+}
+
+pub fn project(m: &MDL, with_vertices: bool) -> Value {
+    let lods: Vec<Value> = m.lods.iter().map(|l| {
+        json!({"parts": l.parts.iter().map(|p| json!({
+            "nv": p.vertices.len(),
+            "vertices": if with_vertices { Value::Array(p.vertices.iter().map(vertex).collect()) } else { json!([]) },
+            "indices": p.indices,
+            "material": p.material_index,
+            "subs": p.submeshes.iter().map(|s| json!([s.index_count, s.index_offset])).collect::<Vec<Value>>(),
+            "shapes": p.shapes.iter().map(|s| sbytes(&s.name)).collect::<Vec<Value>>(),
+            "streams": p.vertex_streams.iter().map(|s| bytes(s)).collect::<Vec<Value>>(),
+            "strides": p.vertex_stream_strides,
+        })).collect::<Vec<Value>>()})
+    }).collect();
+    json!({"lods": lods,
+           "materials": m.material_names.iter().map(|s| sbytes(s)).collect::<Vec<Value>>(),
+           "bones": m.affected_bone_names.iter().map(|s| sbytes(s)).collect::<Vec<Value>>()})
+}
+
+fn input_bytes(cmd: &Value) -> Vec<u8> {
+    if let Some(h) = cmd.get("_hex") {
+        crate::ops_patch::unhex(h.as_str().unwrap_or(""))
+    } else if let Some(p) = cmd.get("_file") {
+        std::fs::read(p.as_str().unwrap_or("")).unwrap_or_default()
+    } else {
+        get_bytes(&cmd["bytes"])
+    }
+}
+
+/// write the handle's model, log the bytes and what parsing them gives
+fn write_and_reparse(m: &MDL, log_bytes: bool) -> Value {
+    let w = guarded(|| value(opt(m.write_to_buffer(), |b| bytes(&b))));
+    if w["outcome"] != "value" || w["v"]["some"] != true {
+        return json!({"written": w, "reparsed": {"outcome": "skipped"}});
+    }
+    let b = get_bytes(&w["v"]["v"]);
+    let r = guarded(|| value(opt(MDL::from_existing(&b), |m2| project(&m2, true))));
+    let wl = if log_bytes { w } else { json!({"outcome": "value", "v": {"some": true, "v": [], "len": b.len()}}) };
+    json!({"written": wl, "reparsed": r})
+}
+
+pub fn run(st: &mut State, op: &str, cmd: &Value) -> Value {
+    let h = geti(cmd, "h");
+    match op {
+        "mdl.parse" => {
+            let b = input_bytes(cmd);
+            guarded(|| value(opt(MDL::from_existing(&b), |m| project(&m, true))))
+        }
+        "mdl.open" => {
+            let b = input_bytes(cmd);
+            st.mdl.models.remove(&h);
+            let mut parsed = None;
+            let r = guarded(|| {
+                let m = MDL::from_existing(&b);
+                let v = opt(m.as_ref(), |m| project(m, true));
+                parsed = m;
+                value(v)
+            });
+            if let Some(m) = parsed {
+                st.mdl.models.insert(h, m);
+            }
+            r
+        }
+        "mdl.write" => {
+            let Some(m) = st.mdl.models.get(&h) else { return json!({"outcome": "nohandle"}); };
+            write_and_reparse(m, true)
+        }
+        "mdl.replace" => {
+            let Some(m) = st.mdl.models.get_mut(&h) else { return json!({"outcome": "nohandle"}); };
+            let (lod, part) = (geti(cmd, "lod") as usize, geti(cmd, "part") as usize);
+            let verts: Vec<Vertex> = cmd["vertices"].as_array().cloned().unwrap_or_default().iter().map(get_vertex).collect();
+            let idx: Vec<u16> = cmd["indices"].as_array().cloned().unwrap_or_default().iter().map(|x| x.as_u64().unwrap_or(0) as u16).collect();
+            let e = guarded(|| {
+                let mut subs = m.lods[lod].parts[part].submeshes.clone();
+                for (i, s) in cmd["subs"].as_array().cloned().unwrap_or_default().iter().enumerate() {
+                    if i < subs.len() {
+                        subs[i].index_count = s[0].as_u64().unwrap_or(0) as u32;
+                        subs[i].index_offset = s[1].as_u64().unwrap_or(0) as u32;
+                    }
+                }
+                m.replace_vertices(lod, part, &verts, &idx, &subs);
+                value(json!(true))
+            });
+            let mut r = write_and_reparse(m, true);
+            r["edit"] = e;
+            r
+        }
+        "mdl.remove_shapes" => {
+            let Some(m) = st.mdl.models.get_mut(&h) else { return json!({"outcome": "nohandle"}); };
+            let e = guarded(|| {
+                m.remove_shape_meshes();
+                value(json!(true))
+            });
+            let mut r = write_and_reparse(m, true);
+            r["edit"] = e;
+            r
+        }
+        "mdl.add_shape" => {
+            let Some(m) = st.mdl.models.get_mut(&h) else { return json!({"outcome": "nohandle"}); };
+            let vals: Vec<NewShapeValue> = cmd["values"].as_array().cloned().unwrap_or_default().iter().map(|v| NewShapeValue {
+                base_index: v["base"].as_u64().unwrap_or(0) as u32,
+                replacing_vertex: get_vertex(&v["vertex"]),
+            }).collect();
+            let e = guarded(|| {
+                m.add_shape_mesh(geti(cmd, "lod") as usize, geti(cmd, "shape") as usize, geti(cmd, "shape_mesh") as usize,
+                                 geti(cmd, "part") as usize, &vals);
+                value(json!(true))
+            });
+            let mut r = write_and_reparse(m, true);
+            r["edit"] = e;
+            r
+        }
+        _ => toolerror(&format!("unknown op {op}")),
+    }
 }
